@@ -220,9 +220,17 @@ int vf_fstat(int fd, struct stat *st)
 int vf_pipe(int pi[2]) { if (in_pipe_fail) { errno = EMFILE; return -1; } pi[0] = 9; pi[1] = 10; open_fds += 2; return 0; }
 int vf_close(int fd) { CHECK(fd == 8 || fd == 9 || fd == 10, "closes its own descriptors"); --open_fds; return 0; }
 
+/* main() blocks SIGCHLD before its loop and opens the window only around select(): while docmd() forks a delivery and
+ * records its pid in the slot, a child that dies at once must not be reaped by sigchld() - the handler would find no slot
+ * with that pid, drop the status, and the command would never be answered */
+static int chld_blocked = 1;
+void sig_childblock(void) { chld_blocked = 1; }
+void sig_childunblock(void) { chld_blocked = 0; }
+
 int spawn(int fdmess, int fdout, char *s, char *r, int at)
 {
   ++n_spawn;
+  CHECK(chld_blocked, "C18: SIGCHLD stays blocked from the fork of a delivery until its slot is recorded (every command gets its one report)");
   CHECK(fdmess == 8 && fdout == 10, "delivery gets the message file and the report pipe");
   CHECK((in_mode & S_IFMT) == S_IFREG && in_uid == UIDQ, "C18: a delivery starts only for a regular file owned by the queue user");
   CHECK(ref_messid_ok(), "C18: a delivery starts only for a numerically named message file");
